@@ -234,56 +234,106 @@ def rule_emp(S):
     facts = S.facts()
     S.rule('R-EMP', 'destroy(): every `delete` of a tree root obtained from T.load_root_ptr() is followed on every '
                     'path, before the function returns (or the loop iterates), by T.store_root_ptr(nullptr); the '
-                    'catalogue root is among them')
+                    'catalogue root is among them; and every return is reached with the catalogue tree either destroyed '
+                    'and emptied or established to have no root (empty() / load_root_ptr() == nullptr on it) on that '
+                    'path: an early return on any other ground leaves the catalogue root allocated past fin()')
     f = facts.one('yakushima::destroy')
     sites = {}
     exits = {'ok': True, 'path': None, 'what': None}
+    catx = {'ok': True, 'path': None, 'n': 0}
 
     def tree_term(n):
         return term_str(term(f, n, res=True))
 
+    def is_cat(n):
+        return 'get_storages' in tree_term(n) or 'storages_' in tree_term(n)
+
+    def root_of(var_id):
+        """the tree a root-pointer local was loaded from, or None"""
+        ini = R.var_decl_init(f, var_id) if var_id else None
+        if ini is not None:
+            for x in f.walk(ini):
+                if is_call(x, cq='yakushima::tree_instance::load_root_ptr'):
+                    return call_recv(f, x)
+        return None
+
     def step(ctx, n, st):
+        pend, cat = st
         if n['k'] == 'CXXDeleteExpr':
             rv = root_var(f, f.ch(n)[0])
-            ini = R.var_decl_init(f, rv) if rv else None
-            t = None
-            if ini is not None:
-                for x in f.walk(ini):
-                    if is_call(x, cq='yakushima::tree_instance::load_root_ptr'):
-                        t = tree_term(call_recv(f, x))
+            tr = root_of(rv)
+            t = tree_term(tr) if tr is not None else None
             if t is None:
                 sites['delete ' + short_loc(n)] = {'ok': False, 'loc': short_loc(n),
                                                    'what': 'deletes something that is not a root loaded from a tree'}
                 return st
             sites.setdefault('delete root of ' + t, {'ok': True, 'loc': short_loc(n), 'what': ''})
-            return st | {t}
+            return (pend | {t}, cat)
         if is_call(n, cq='yakushima::tree_instance::store_root_ptr'):
             a = call_args(f, n)
             if a and R.const_of(f, a[0]) == 'null':
-                return st - {tree_term(call_recv(f, n))}
+                t = tree_term(call_recv(f, n))
+                return (pend - {t}, cat or (t in pend and is_cat(call_recv(f, n))))
             return st
         if n['k'] == 'ReturnStmt':
-            if st:
+            catx['n'] += 1
+            if pend:
                 exits['ok'] = False
                 exits['path'] = exits['path'] or ctx.witness()
-                exits['what'] = ', '.join(sorted(st))
+                exits['what'] = ', '.join(sorted(pend))
+            if not cat and catx['ok']:
+                catx['ok'] = False
+                catx['path'] = ctx.witness()
             return None
         return st
 
-    ex = Explorer(f, step)
-    ex.run(frozenset())
-    # loop iteration with a pending root: the same (block, state) being revisited with non-empty state at the
-    # loop head is covered by the return check because pending terms are never dropped except by a store.
+    def branch(ctx, blk, idx, st):
+        pend, cat = st
+        if not (blk.term and 'cond' in blk.term and len(blk.succ) == 2):
+            return st
+        c = f.strip(blk.term['cond'], casts=True)
+        truth = idx == 0
+        while c is not None and c['k'] == 'UnaryOperator' and c.get('op') == '!':
+            truth = not truth
+            c = f.strip(f.ch(c)[0], casts=True)
+        if c is None:
+            return st
+        # T->empty() on the catalogue: no root
+        if c['k'] in CALL_KINDS and c.get('cq') == 'yakushima::tree_instance::empty' and truth and is_cat(call_recv(f, c)):
+            return (pend, True)
+        # root == nullptr for a root loaded from the catalogue
+        if c['k'] == 'BinaryOperator' and c.get('op') in ('==', '!='):
+            l, r = f.ch(c)
+            for x, y in ((l, r), (r, l)):
+                if R.const_of(f, y) == 'null':
+                    tr = root_of(root_var(f, x))
+                    if tr is not None and is_cat(tr) and (truth == (c['op'] == '==')):
+                        return (pend, True)
+        return st
+
+    ex = Explorer(f, step, branch)
+    ex.run((frozenset(), False))
+    for (pend, cat) in ex.exit_states:
+        catx['n'] += 1
+        if pend:
+            exits['ok'] = False
+            exits['what'] = ', '.join(sorted(pend))
+        if not cat:
+            catx['ok'] = False
     S.require('R-EMP', 'tree roots deleted by destroy()', len(sites), 2)
-    for s, e in sorted(sites.items()):
-        S.ob('R-EMP', f.qname, s, e['ok'], e['what'] or 'deleted root is loaded from a tree_instance', loc=e['loc'])
+    for s_, e in sorted(sites.items()):
+        S.ob('R-EMP', f.qname, s_, e['ok'], e['what'] or 'deleted root is loaded from a tree_instance', loc=e['loc'])
     S.ob('R-EMP', f.qname, 'returns', exits['ok'],
          'every deleted root pointer is nulled before destroy() returns' if exits['ok'] else
          'destroy() can return with a dangling root pointer left in: ' + (exits['what'] or ''),
          loc=f.loc, path=exits['path'])
-    cat = any('get_storages' in s for s in sites)
-    S.ob('R-EMP', f.qname, 'catalogue root', cat,
-         'the storage catalogue tree is %sdestroyed and emptied' % ('' if cat else 'NOT '), loc=f.loc)
+    cat_site = any('get_storages' in s_ or 'storages_' in s_ for s_ in sites)
+    S.ob('R-EMP', f.qname, 'catalogue root', cat_site and catx['ok'],
+         'on every path to a return the storage catalogue tree is destroyed and emptied, or was found without a root'
+         if (cat_site and catx['ok']) else
+         ('destroy() can return without having destroyed the catalogue tree and without having found it empty: its root '
+          'node stays allocated past fin()' if cat_site else 'the storage catalogue tree is NOT destroyed and emptied'),
+         loc=f.loc, path=catx['path'])
 
 
 def rule_fin(S):
